@@ -486,6 +486,7 @@ def prim_cases():
             add(f"PDecAdd {ca} {cb}", lambda a=a, b=b: float(a + b), f"{a}+{b}")
             add(f"PDecSub {ca} {cb}", lambda a=a, b=b: float(a - b), f"{a}-{b}")
             add(f"PDecMul {ca} {cb}", lambda a=a, b=b: float(a * b), f"{a}*{b}")
+            add(f"PDecDiv {ca} {cb}", lambda a=a, b=b: float(a / b), f"{a}/{b}")
             imp = False
             try:
                 a % b
@@ -638,7 +639,7 @@ def run(ck: Check) -> None:
     ]
     ck.assumptions = [
         "sys.get_int_max_str_digits() = liquid.limits.MAX_STR_INT = 4300; default Undefined; default warning filters (WARN mode does not turn warnings into errors)",
-        "data is JSON-like (None, bool, int, float, str, list, dict with text keys) plus range; no custom drops, no babel-based filters, no date filter (dateutil)",
+        "data is JSON-like (None, bool, int, float, str, list, dict with text keys) plus range; no custom drops, no babel-based filters; the date filter (dateutil, datetime) is oracle-only over its own closed pools of 54 values x 22 formats",
         "texts accepted by float() are accepted by Decimal() and conversely; hash keys are texts that are not numeric; json indent is small or beyond 2**63 (a mid-size indent is a memory question, not an exception-class one)",
         "filter chains in the model have length 1 (a filter result only reaches the output statement); longer chains are run against the oracle only",
         "RecursionError from deep nesting belongs to C09 and is only given a signature here",
@@ -789,10 +790,46 @@ def _run(ck: Check, rep: Reporter) -> None:
             else:
                 rep.escape("chain:" + f1 + "|" + f2, src, names, obs6)
 
-    _t(ck, "chains done")
+    date_family(ck, rep, quick)
+    _t(ck, "chains and date family done")
     # ---- parse side and recursion
     parse_side(ck, rep, 600 if quick else 8000)
     recursion_cases(ck, rep)
+
+
+# ---- the date filter (dateutil + datetime; oracle only): left values and formats given as Python expressions so that a replay
+# file can name them exactly
+DATE_LEFT = ["None", "True", "0", "12", "1700000000", "-1", "10**11", "10**14", "-10**14", "10**17", "2**70", "10**400", "1.5", "float('inf')",
+             "float('nan')", r"'0'", r"'12'", r"'1700000000'", r"'99999999999'", r"'99999999999999'", r"'99999999999999999999'", r"'9'*400",
+             r"'\u00b2'", r"'\u0661\u0662\u0663'", r"'-5'", r"'+5'", r"'1.5'", r"'now'", r"'today'", r"'abc'", r"''", r"' '", r"'2001-02-03'",
+             r"'2001-02-30'", r"'0000-00-00'", r"'9999-12-31 23:59:59'", r"'99999-99-99'", r"'9999999999-01-01'", r"'March 99999999999999999999'",
+             r"'Jan 1 999999999999'", r"'12:99'", r"'25:00'", r"'1/2/3/4/5'", r"'1e400'", r"'\x00'", r"'%'", r"'1 2 3 4 5 6 7 8 9'",
+             r"'2001-02-03T04:05:06+99:99'", r"'2001-02-03 04:05 UTC+25'", r"'x\ud800'", "[1]", "{'a': 1}", "range(3)", "[]"]
+DATE_FMT = [r"'%Y'", r"'%s'", r"'%'", r"'%Q'", r"'%-d'", r"'%:z'", r"''", "5", "None", "1.5", "[1]", r"'%'*300", r"'%\x00'", r"'%c'*40",
+            r"'\ud800'", r"'%G-%V'", r"'%E'", r"'%5Y'", r"'%^a'", r"'%+'", r"'%Z %z'", r"'\u00e9%B'"]
+
+
+def date_family(ck: Check, rep: Reporter, quick: bool) -> None:
+    fmts = DATE_FMT[:6] if quick else DATE_FMT
+    for le in DATE_LEFT:
+        for fe in fmts:
+            for src in ("{{ v | date: a }}", "{{ v | date: a | upcase }}{% assign q = v | date: a %}") if not quick else ("{{ v | date: a }}",):
+                obs6 = run6(src, {"v": eval(le), "a": eval(fe)})  # noqa: S307 (closed pools above)
+                ck.note_case(("date", src, le, fe))
+                ck.count("site.date")
+                ck.traces += 6
+                for i, o in enumerate(obs6):
+                    if o.startswith("OForeign"):
+                        sig = f"foreign:date:{o.split()[1]}"
+                        n = rep.seen.get(sig, 0)
+                        rep.seen[sig] = n + 1
+                        ck.count("escape.unlisted")
+                        if n < 3:
+                            ck.violation("impl-violation", sig,
+                                         f"{src!r} with v = {le}, a = {fe} raises {o.split()[1][1:]} ({MODES[i // 2]}, {'async' if i % 2 else 'sync'}): "
+                                         "not a LiquidError",
+                                         {"type": "date", "template": src, "v": le, "a": fe, "observed": list(obs6)})
+                        break
 
 
 def _combos(site_name, src, site, nargs, sets):
@@ -815,6 +852,11 @@ def replay(data) -> int:
         if t == "render":
             obs6 = run6(case["template"], data_of(case["reps"]))
             print("template:", case["template"], "representatives:", case["reps"])
+            print("observed (STRICT,WARN,LAX x sync,async):", obs6)
+            bad = any(o.startswith("OForeign") for o in obs6)
+        elif t == "date":
+            obs6 = run6(case["template"], {"v": eval(case["v"]), "a": eval(case["a"])})  # noqa: S307
+            print("template:", case["template"], "v =", case["v"], "a =", case["a"])
             print("observed (STRICT,WARN,LAX x sync,async):", obs6)
             bad = any(o.startswith("OForeign") for o in obs6)
         elif t in ("parse", "parsed-render"):
